@@ -196,7 +196,8 @@ func (in *Interp) Eval(e *lang.Expr, env *Env) (Value, error) {
 		if !ok {
 			return nil, Errf("method %s not found on %s", e.S, TypeName(recv))
 		}
-		if l, isList := recv.(*List); isList && l.Unordered && len(l.Items) > 1 && !orderInsensitive[e.S] {
+		// (a failing list keeps only the prefix in front of the failure: which items that are depends on the order too)
+		if l, isList := recv.(*List); isList && l.Unordered && (len(l.Items) > 1 || l.Err != nil) && !orderInsensitive[e.S] {
 			in.OrderLeak = true // an order-sensitive use of a list whose order is unspecified
 		}
 		if me.Min >= 0 && (len(e.X)-1 < me.Min || len(e.X)-1 > me.Max) && !me.CheckInside {
@@ -210,7 +211,7 @@ func (in *Interp) Eval(e *lang.Expr, env *Env) (Value, error) {
 			return nil, Errf("wrong number of arguments at call of %s", e.S)
 		}
 		for _, a := range args {
-			if l, isList := a.(*List); isList && l.Unordered && len(l.Items) > 1 {
+			if l, isList := a.(*List); isList && l.Unordered && (len(l.Items) > 1 || l.Err != nil) {
 				in.OrderLeak = true // a list argument (cross, merge ...) whose order is unspecified
 			}
 		}
